@@ -11,6 +11,7 @@ def step (_ : Unit) (ws : List String) : Unit × String :=
   match ws with
   | ["start"] => ((), "ok")
   | "req" :: _ => ((), "req L=* F=queued R=*")
+  | "reqd" :: _ => ((), "reqd id=* mark=* L=* F=queued R=*")
   | "flush" :: _ => ((), "flush *")
   | ["compact", _] => ((), "compact ok")
   | ["halfcompact", _] => ((), "halfcompact ok")
@@ -25,6 +26,7 @@ def step (_ : Unit) (ws : List String) : Unit × String :=
 structure SpecSt where
   pending : List String := []
   queued : Nat := 0          -- requests handed to the follower node but not yet replicated (`flush`)
+  drawn : Nat := 0           -- the last history id a node drew for a publish (`reqd`)
 
 def field (ans : List String) (k : String) : String :=
   match ans.find? (·.startsWith (k ++ "=")) with
@@ -46,6 +48,14 @@ def specStep (s : SpecSt) (ws : List String) : SpecSt × String :=
       -- the leader path and the node that is restarted answer alike
       if field ans "L" == field ans "R" then ({ s0 with queued := s.queued + 1 }, "spec ok")
       else ({ s0 with queued := s.queued + 1 }, s!"spec FAIL the same request is answered {field ans "L"} and {field ans "R"} by two nodes in the same state")
+    | "reqd" :: _ =>
+      -- the history id was drawn by a node's own sequence (as a leader does): never one that was drawn before (C19/C01)
+      let id := (field ans "id").toNat?.getD 0
+      let s1 : SpecSt := { s0 with queued := s.queued + 1, drawn := max s.drawn id }
+      if ans.head? != some "reqd" || field ans "id" == "" then (s0, "-")
+      else if id ≤ s.drawn then (s1, s!"spec FAIL history id {id} drawn after {s.drawn}: an id is handed out twice")
+      else if field ans "L" == field ans "R" then (s1, "spec ok")
+      else (s1, s!"spec FAIL the same request is answered {field ans "L"} and {field ans "R"} by two nodes in the same state")
     | ["restart", _] =>
       (s0, if ans.head? == some "restarted" then "spec ok" else "spec FAIL the node does not restart from its data directory")
     | ["crash", _] =>
